@@ -71,6 +71,25 @@ def _normalize_raw_title_quotes(raw_title: str) -> str:
     return _normalize_title_quotes(raw_title)
 
 
+def _render_destination(dest: str) -> str:
+    """
+    A link destination as it can be written between the parentheses of a link: one that
+    contains whitespace or unbalanced parentheses (written escaped in the source) is only
+    valid inside angle brackets.
+    """
+    depth = 0
+    for char in dest:
+        if char == "(":
+            depth += 1
+        elif char == ")":
+            depth -= 1
+            if depth < 0:
+                break
+    if re.search(r"\s", dest) or depth != 0:
+        return f"<{dest}>"
+    return dest
+
+
 def _min_fence_length(code_content: str, fence_char: str = "`") -> int:
     """
     Calculate the minimum fence length needed for code content.
@@ -609,8 +628,7 @@ class MarkdownNormalizer(Renderer):
                 return f"[{label}]"
             return f"[{link_text}][{label}]"
         title = f" {link_title}" if link_title is not None else ""
-        # A destination that contains whitespace is only valid inside angle brackets.
-        dest = f"<{element.dest}>" if re.search(r"\s", element.dest) else element.dest
+        dest = _render_destination(element.dest)
         return f"[{link_text}]({dest}{title})"
 
     def render_auto_link(self, element: inline.AutoLink) -> str:
@@ -619,7 +637,7 @@ class MarkdownNormalizer(Renderer):
     def render_image(self, element: inline.Image) -> str:
         template = "![{}]({}{})"
         title = f" {_normalize_title_quotes(element.title)}" if element.title else ""
-        dest = f"<{element.dest}>" if re.search(r"\s", element.dest) else element.dest
+        dest = _render_destination(element.dest)
         return template.format(self.render_children(element), dest, title)
 
     def render_literal(self, element: inline.Literal) -> str:
